@@ -208,7 +208,14 @@ func (cx *Ctx) functionOfKey(v, key ssa.Value, h *ssa.BasicBlock, depth int, see
 			return true
 		}
 		for _, r := range *a.Referrers() {
-			if st, ok := r.(*ssa.Store); ok && st.Addr == a && !cx.functionOfKey(st.Val, key, h, depth+1, seen) {
+			switch y := r.(type) {
+			case *ssa.Store:
+				if y.Addr == a && !cx.functionOfKey(y.Val, key, h, depth+1, seen) {
+					return false
+				}
+			case ssa.CallInstruction:
+				return false // filled through its address (Unmarshal(bz, &x)): this element's data
+			case *ssa.MakeInterface, *ssa.MakeClosure:
 				return false
 			}
 		}
